@@ -109,6 +109,13 @@ def gen_case(rng, params, index):
             r = rng.below(11)
             if r == 10:
                 r = 7   # more weight on pre-created things at output paths
+            if pending_recovery and rng.chance(0.5):
+                # after a crash the next version of a source is often much shorter or much longer than what the dead run
+                # was writing: whatever that run left behind must not leak into the next outputs
+                rel = rng.choice(srcs)
+                model[rel] = docs.gen_doc(rng, min_widgets=2, max_widgets=2, want_dynamic=not no_dyn) if rng.chance(0.7) else docs.gen_doc(rng, min_widgets=6, max_widgets=7, want_dynamic=not no_dyn)
+                steps.append({"op": "WRITE", "path": "proj/" + rel, "content": docs.render(model[rel])[0], "edit": "resize"})
+                r = 99
             if r < 5:
                 rel = rng.choice(srcs)
                 model[rel], _op = docs.edit(rng, model[rel])
@@ -272,34 +279,16 @@ def run_case(case, env):
             is_rerun = bool(step.get("rerun")) and prev_gen is not None and _same_invocation(prev_gen, step) and prev_exit == 0
             if is_rerun:
                 _bump(probes, "reruns")
-                ch = [p for p in engine.diff_paths(before, after) if not (fsmodel.is_temp(p) and res.exit_status != 0)]
+                ch = [p for p in engine.diff_paths(before, after) if not (engine.is_scratch(sb, p, relpred, before) and res.exit_status != 0)]
                 if ch:
                     add([V("untouched", "rerun:touched", "identical re-run changed %s" % ch)], si)
             prev_gen, prev_exit = step, res.exit_status
             # ---- freshness: what a successful run leaves at the output paths is what the same invocation writes
             # where no output exists yet (an output kept because "nothing changed" must really be unchanged)
-            if res.exit_status == 0 and relpred and any(p in before.files for p in relpred) and not engine.must_refuse(step):
-                sb.park()
-                try:
-                    sb.clone_in()
-                    for p in relpred:
-                        fp = os.path.join(sb.root, p)
-                        if os.path.islink(fp) or os.path.isfile(fp):
-                            os.unlink(fp)
-                    fr = sb.run(step)
-                    account(fr)
-                    fresh = sb.snap()
-                    sb.drop_clone()
-                finally:
-                    sb.unpark()
+            if res.exit_status == 0 and relpred and not engine.must_refuse(step) and (
+                    any(p in before.files for p in relpred) or any(p not in sb.case_files and p not in relpred for p in before.files)):
                 _bump(probes, "freshness_twins_run")
-                if fr.exit_status == 0:
-                    for p in sorted(relpred):
-                        if fresh.content(p) != after.content(p):
-                            add([V("freshness", "fresh:stale-output", "exit 0, but output %s is not what this invocation generates from the current sources "
-                                   "(kept from an earlier run?): here %s, freshly generated %s\n%s"
-                                   % (p, engine._d(after.content(p)), engine._d(fresh.content(p)),
-                                      __import__("sim.cliworld.c08", fromlist=["_firstdiff"])._firstdiff(fresh.content(p), after.content(p))))], si)
+                add(engine.freshness(sb, step, relpred, after, account), si)
             fps.append(cfg + "|clean|chg=%d|same=%d|exit=%s" % (nchanged, nsame, res.disposition()))
             trace.append({"step": si, "argv": engine.argv_for(step, env, "@BOX@")[3:], "fault": "none", "exit": res.disposition(),
                           "changed_outputs": nchanged})
